@@ -54,8 +54,8 @@ func (g *mg) intn(n int, l string) int { return uniform(g.t, l, n) }
 func (g *mg) id() int                  { g.next++; return g.next }
 
 // separators that may be empty / are never empty. The first entries are the plain ones (shrinking goes there).
-var wsAlts = []string{" ", "", " ", "  ", "\t", "\n", "\r\n", "\n\n", " /* é */ ", " /* 😀😀 */ ", " /* ñ́ */ ", "\n  ", "    ", " /* */ ", "\n// c\n",
-	"\r", " ", " ", " /* 😀*/ ", " ", "﻿", "　", "\n// é😀 c\r\n", "\t\t", "\r\n\t", " /* 𝒳\r\n𝒳 */ ", "\v", "\f", " /* 𝒳𝒳𝒳 */\t"}
+var wsAlts = []string{" ", "", " ", "  ", "\t", "\n", "\r\n", "\n\n", " /* é */ ", " /* 😀😀 */ ", " /* ñ́ */ ", "\n  ", "    ", " /*\u2028*/ ", "\n// c\n",
+	"\r", "\u2028", "\u2029", " /*\u2029😀*/ ", "\u00a0", "\ufeff", "\u3000", "\n// é😀 c\r\n", "\t\t", "\r\n\t", " /* 𝒳\r\n𝒳 */ ", "\v", "\f", " /* 𝒳𝒳𝒳 */\t"}
 
 func (g *mg) ws() string { return pick(g.t, "ws", wsAlts) }
 func (g *mg) ws1() string {
@@ -75,7 +75,7 @@ func (g *mg) ident() string {
 // asciiIdent is used where the name must survive as an identifier in every charset (labels, private names).
 func (g *mg) asciiIdent() string { return fmt.Sprintf("mk%d_%d", g.id(), g.file) }
 
-var strTails = []string{"", "", "é", "😀", "\\u2028", "a b", "\\n", " ", " ", "😀́😀", "\\\n", "\\\r\n", "\\ x", "\\u{1F600}", "\t"}
+var strTails = []string{"", "", "é", "😀", "\\u2028", "a b", "\\n", "\u2028", "\u2029", "😀́😀", "\\\n", "\\\r\n", "\\\u2028x", "\\u{1F600}", "\t"}
 
 func (g *mg) str() string {
 	q := []string{"\"", "'"}[g.intn(2, "q")]
@@ -83,7 +83,7 @@ func (g *mg) str() string {
 }
 func (g *mg) num() string { return fmt.Sprintf("9%04d%d", g.id(), g.file) }
 
-var tplTexts = []string{"é😀", "", "\n", "\r\n", "é 😀", " 𝒳\n\t", "x"}
+var tplTexts = []string{"é😀", "", "\n", "\r\n", "é\u2028😀", " 𝒳\n\t", "x"}
 
 func (g *mg) leaf() string {
 	switch g.intn(4, "leaf") {
@@ -130,7 +130,7 @@ func (g *mg) expr(d int) string {
 		return "function" + g.ws() + "(" + p + ")" + g.ws() + "{" + g.ws() + "return" + " " + g.scoped([]string{p}, func() string { return g.expr(d - 1) }) + g.ws() + "}"
 	case 7:
 		a, b := g.ident(), g.ident()
-		return "(" + g.ws() + a + "," + g.ws() + b + g.ws() + ") =>" + g.ws() + g.scoped([]string{a, b}, func() string { return "sink(" + g.expr(d-1) + ")" })
+		return "((" + g.ws() + a + "," + g.ws() + b + g.ws() + ") =>" + g.ws() + g.scoped([]string{a, b}, func() string { return "sink(" + g.expr(d-1) + ")" }) + ")"
 	case 8:
 		if len(g.decl) > 0 {
 			return "{" + g.ws() + g.decl[g.intn(len(g.decl), "ref")] + "," + g.ws() + g.ident() + ":" + g.ws() + g.expr(d-1) + "}" // shorthand property
@@ -199,7 +199,7 @@ func (g *mg) stmt(exportSome bool) {
 
 func (g *mg) program(nstmts int, exportSome bool, imports []string) string {
 	if g.intn(6, "bom") == 0 {
-		g.sb.WriteString("﻿")
+		g.sb.WriteString("\ufeff")
 	}
 	for _, im := range imports {
 		g.sb.WriteString(im + g.ws())
@@ -212,8 +212,8 @@ func (g *mg) program(nstmts int, exportSome bool, imports []string) string {
 
 // ----------------------------------------------------------------------------- case generator
 
-var bannerTexts = []string{"/* banner */", "// b1\n// b2", "/* é😀 */ var bannerVar = 1;", "/* a\r\n b */\r\n// 𝒳𝒳", "/* */ /* x */", "// lone\r/* cr */", "\"use strict\";"}
-var footerTexts = []string{"", "/* footer */", "// é😀 end", "/* f1 */\n/* f2  */"}
+var bannerTexts = []string{"/* banner */", "// b1\n// b2", "/* é😀 */ var bannerVar = 1;", "/* a\r\n b */\r\n// 𝒳𝒳", "/*\u2028*/ /* x */", "// lone\r/* cr */", "\"use strict\";"}
+var footerTexts = []string{"", "/* footer */", "// é😀 end", "/* f1 */\n/* f2\u2029 */"}
 
 func genCase(rt *rapid.T) Case {
 	c := Case{Files: map[string]string{}}
@@ -230,7 +230,7 @@ func genCase(rt *rapid.T) Case {
 				imports = append(imports, fmt.Sprintf("import \"./f%d.js\";", j))
 			}
 		}
-		src := g.program(2+uniform(rt, "nstmts", 6), i == 0 && !pre, imports)
+		src := g.program(2+uniform(rt, "nstmts", 6), false, imports) // no exports: the getters esbuild writes for them are invented code
 		if i == 0 && n > 1 && dyn {
 			// dynamic imports on consecutive lines: with splitting the final (hashed, variable-length) chunk
 			// paths are substituted in front of mapped tokens on the same line
